@@ -3043,11 +3043,12 @@ class Client:
             if self._state in (_ConnectionState.MQTT_CS_DISCONNECTING, _ConnectionState.MQTT_CS_DISCONNECTED):
                 self._state = _ConnectionState.MQTT_CS_DISCONNECTED
                 rc = MQTTErrorCode.MQTT_ERR_SUCCESS
+            elif rc == MQTT_ERR_CONN_LOST:
+                # Set the state before the callback: on_disconnect may call
+                # disconnect() or reconnect() and that decision must stand.
+                self._state = _ConnectionState.MQTT_CS_CONNECTION_LOST
 
             self._do_on_disconnect(packet_from_broker=False, v1_rc=rc)
-
-        if rc == MQTT_ERR_CONN_LOST:
-            self._state = _ConnectionState.MQTT_CS_CONNECTION_LOST
 
         return rc
 
